@@ -88,88 +88,16 @@ func ruleEqSymmetric(c *Ctx) []Obligation {
 				if len(fd.Type.Params.List) == 1 && len(fd.Type.Params.List[0].Names) == 1 {
 					other = l.info.Defs[fd.Type.Params.List[0].Names[0]]
 				}
-				// aliases of other: x := other.(T)
-				otherAliases := map[types.Object]bool{}
+				sc := &mbEqScan{l: l, field: f.Name()}
+				env := mbEqEnv{whole: map[types.Object]string{}, cont: map[types.Object]string{}}
+				if recv != nil {
+					env.whole[recv] = "self"
+				}
 				if other != nil {
-					otherAliases[other] = true
+					env.whole[other] = "other"
 				}
-				mbInspectNoLit(fd.Body, func(n ast.Node) bool {
-					as, ok := n.(*ast.AssignStmt)
-					if !ok || len(as.Lhs) != len(as.Rhs) {
-						return true
-					}
-					for i, r := range as.Rhs {
-						if id, ok := mbStripDeref(r).(*ast.Ident); ok && otherAliases[l.info.Uses[id]] {
-							if lid, ok := as.Lhs[i].(*ast.Ident); ok {
-								if o := l.info.Defs[lid]; o != nil {
-									otherAliases[o] = true
-								}
-							}
-						}
-					}
-					return true
-				})
-				side := func(e ast.Expr) string {
-					sel, ok := mbStripDeref(e).(*ast.SelectorExpr)
-					if !ok || sel.Sel.Name != f.Name() {
-						return ""
-					}
-					id, ok := mbStripDeref(sel.X).(*ast.Ident)
-					if !ok {
-						return ""
-					}
-					o := l.info.Uses[id]
-					switch {
-					case recv != nil && o == recv:
-						return "self"
-					case otherAliases[o]:
-						return "other"
-					}
-					return ""
-				}
-				lenSide := func(e ast.Expr) string {
-					call, ok := ast.Unparen(e).(*ast.CallExpr)
-					if !ok || len(call.Args) != 1 {
-						return ""
-					}
-					if id, ok := call.Fun.(*ast.Ident); ok {
-						if b, ok := l.info.Uses[id].(*types.Builtin); ok && b.Name() == "len" {
-							return side(call.Args[0])
-						}
-					}
-					return ""
-				}
-				rangesSelf, rangesOther, lenCmp, idxLoopSelf := false, false, false, false
-				readsSelf := false
-				mbInspectNoLit(fd.Body, func(n ast.Node) bool {
-					switch x := n.(type) {
-					case *ast.RangeStmt:
-						switch side(x.X) {
-						case "self":
-							rangesSelf = true
-						case "other":
-							rangesOther = true
-						}
-					case *ast.ForStmt:
-						if be, ok := x.Cond.(*ast.BinaryExpr); ok {
-							if lenSide(be.Y) == "self" || lenSide(be.X) == "self" {
-								idxLoopSelf = true
-							}
-						}
-					case *ast.BinaryExpr:
-						if x.Op == token.EQL || x.Op == token.NEQ {
-							a, b := lenSide(x.X), lenSide(x.Y)
-							if (a == "self" && b == "other") || (a == "other" && b == "self") {
-								lenCmp = true
-							}
-						}
-					case *ast.SelectorExpr:
-						if side(x) == "self" {
-							readsSelf = true
-						}
-					}
-					return true
-				})
+				sc.scan(fd.Body, env, 0)
+				rangesSelf, rangesOther, lenCmp, idxLoopSelf, readsSelf := sc.rangesSelf, sc.rangesOther, sc.lenCmp, sc.idxLoopSelf, sc.readsSelf
 				st, detail := Discharged, ""
 				switch {
 				case !readsSelf:
@@ -193,6 +121,179 @@ func ruleEqSymmetric(c *Ctx) []Obligation {
 	return obs
 }
 
+// mbEqScan collects, over the body of IsEqual and of the library helpers it
+// calls (two levels, operands bound to parameters), how the container field
+// `field` of the receiver ("self") and of the argument ("other") is used:
+// ranged over, used as the bound of an index loop, its length compared with
+// the other side's. Sides are tracked through local aliases of the whole value
+// (`o := other.(T)`) and of the container (`mine := self.F`, `vals := *self.F`).
+type mbEqScan struct {
+	l     *mbLib
+	field string
+
+	rangesSelf, rangesOther, lenCmp, idxLoopSelf, readsSelf bool
+}
+
+type mbEqEnv struct {
+	whole map[types.Object]string // object is the whole value of a side
+	cont  map[types.Object]string // object is the container field of a side
+}
+
+func (sc *mbEqScan) side(e ast.Expr, env mbEqEnv) string {
+	info := sc.l.info
+	switch x := mbStripDeref(e).(type) {
+	case *ast.Ident:
+		return env.cont[info.Uses[x]]
+	case *ast.SelectorExpr:
+		if x.Sel.Name != sc.field {
+			return ""
+		}
+		if s, ok := info.Selections[x]; !ok || s.Kind() != types.FieldVal {
+			return ""
+		}
+		if id, ok := mbStripDeref(x.X).(*ast.Ident); ok {
+			return env.whole[info.Uses[id]]
+		}
+	}
+	return ""
+}
+
+func (sc *mbEqScan) lenSide(e ast.Expr, env mbEqEnv) string {
+	info := sc.l.info
+	call, ok := ast.Unparen(e).(*ast.CallExpr)
+	if !ok {
+		return ""
+	}
+	// conversions: int64(len(x))
+	if tv, ok := info.Types[call.Fun]; ok && tv.IsType() && len(call.Args) == 1 {
+		return sc.lenSide(call.Args[0], env)
+	}
+	if len(call.Args) != 1 {
+		return ""
+	}
+	if id, ok := call.Fun.(*ast.Ident); ok {
+		if b, ok := info.Uses[id].(*types.Builtin); ok && b.Name() == "len" {
+			return sc.side(call.Args[0], env)
+		}
+	}
+	return ""
+}
+
+func (sc *mbEqScan) scan(body ast.Node, env mbEqEnv, depth int) {
+	info := sc.l.info
+	// aliases (to a fixpoint: an alias of an alias)
+	lenOf := map[types.Object]string{} // local holding len(<side>)
+	for round := 0; round < 3; round++ {
+		mbInspectNoLit(body, func(n ast.Node) bool {
+			as, ok := n.(*ast.AssignStmt)
+			if !ok || len(as.Lhs) != len(as.Rhs) {
+				return true
+			}
+			for i, r := range as.Rhs {
+				lid, ok := as.Lhs[i].(*ast.Ident)
+				if !ok {
+					continue
+				}
+				o := info.Defs[lid]
+				if o == nil {
+					continue
+				}
+				if id, ok := mbStripDeref(r).(*ast.Ident); ok {
+					if w := env.whole[info.Uses[id]]; w != "" {
+						env.whole[o] = w
+					}
+				}
+				if sd := sc.side(r, env); sd != "" {
+					env.cont[o] = sd
+				}
+				if sd := sc.lenSide(r, env); sd != "" {
+					lenOf[o] = sd
+				}
+			}
+			return true
+		})
+	}
+	lenSide := func(e ast.Expr) string {
+		if sd := sc.lenSide(e, env); sd != "" {
+			return sd
+		}
+		if id, ok := ast.Unparen(e).(*ast.Ident); ok {
+			return lenOf[info.Uses[id]]
+		}
+		return ""
+	}
+	mbInspectNoLit(body, func(n ast.Node) bool {
+		switch x := n.(type) {
+		case *ast.RangeStmt:
+			switch sc.side(x.X, env) {
+			case "self":
+				sc.rangesSelf = true
+			case "other":
+				sc.rangesOther = true
+			}
+		case *ast.ForStmt:
+			if be, ok := x.Cond.(*ast.BinaryExpr); ok {
+				if lenSide(be.Y) == "self" || lenSide(be.X) == "self" {
+					sc.idxLoopSelf = true
+				}
+			}
+		case *ast.BinaryExpr:
+			if x.Op == token.EQL || x.Op == token.NEQ {
+				a, b := lenSide(x.X), lenSide(x.Y)
+				if (a == "self" && b == "other") || (a == "other" && b == "self") {
+					sc.lenCmp = true
+				}
+			}
+		case *ast.SelectorExpr:
+			if sc.side(x, env) == "self" {
+				sc.readsSelf = true
+			}
+		case *ast.CallExpr:
+			// a helper of the library: its body with the operands bound
+			if depth >= 2 {
+				return true
+			}
+			fn := CalleeOf(info, x)
+			hd := sc.l.decls[fn]
+			if hd == nil || hd.Body == nil {
+				return true
+			}
+			sub := mbEqEnv{whole: map[types.Object]string{}, cont: map[types.Object]string{}}
+			bound := false
+			bind := func(po types.Object, a ast.Expr) {
+				if po == nil {
+					return
+				}
+				if id, ok := mbStripDeref(a).(*ast.Ident); ok {
+					if w := env.whole[info.Uses[id]]; w != "" {
+						sub.whole[po] = w
+						bound = true
+					}
+				}
+				if sd := sc.side(a, env); sd != "" {
+					sub.cont[po] = sd
+					bound = true
+				}
+			}
+			ps := mbParamObjs(info, hd)
+			for i, a := range x.Args {
+				if i < len(ps) {
+					bind(ps[i], a)
+				}
+			}
+			if sel, ok := x.Fun.(*ast.SelectorExpr); ok {
+				if s, ok := info.Selections[sel]; ok && s.Kind() == types.MethodVal {
+					bind(mbRecvObj(info, hd), sel.X)
+				}
+			}
+			if bound {
+				sc.scan(hd.Body, sub, depth+1)
+			}
+		}
+		return true
+	})
+}
+
 // ---------------------------------------------------------------------------
 // content fields and field coverage
 // ---------------------------------------------------------------------------
@@ -206,34 +307,67 @@ func (l *mbLib) iterStateFields(im *mbImpl) map[string]bool {
 		return out
 	}
 	iterMethods := map[string]bool{}
-	var visit func(fd *ast.FuncDecl)
-	visit = func(fd *ast.FuncDecl) {
-		recv := mbRecvObj(l.info, fd)
+	// A method of the value struct is part of the iterator when IntoIter (or a
+	// method / in-package helper it uses, two levels) selects it — as a call or
+	// as a method value — on ANY expression of the struct's type: the receiver
+	// itself (`self.iterNext`), a freshly built value
+	// (`(*NewValueList(x)).(ValueList).iterNext`), a local copy, or inside a
+	// closure that IntoIter returns. The selection is resolved through the type
+	// checker (types.Selection), not through the spelling of the operand.
+	isOwnMethod := func(sel *ast.SelectorExpr) *ast.FuncDecl {
+		s, ok := l.info.Selections[sel]
+		if !ok || (s.Kind() != types.MethodVal && s.Kind() != types.MethodExpr) {
+			return nil
+		}
+		fn, ok := s.Obj().(*types.Func)
+		if !ok {
+			return nil
+		}
+		sig, _ := fn.Type().(*types.Signature)
+		if sig == nil || sig.Recv() == nil {
+			return nil
+		}
+		rt := sig.Recv().Type()
+		if p, ok := rt.(*types.Pointer); ok {
+			rt = p.Elem()
+		}
+		if nt, ok := rt.(*types.Named); !ok || nt.Obj() != im.named.Obj() {
+			return nil
+		}
+		return im.methods[sel.Sel.Name]
+	}
+	seenHelper := map[*types.Func]bool{}
+	var visit func(fd *ast.FuncDecl, helperDepth int)
+	visit = func(fd *ast.FuncDecl, helperDepth int) {
+		if fd == nil || fd.Body == nil {
+			return
+		}
 		ast.Inspect(fd.Body, func(n ast.Node) bool {
-			if sel, ok := n.(*ast.SelectorExpr); ok {
-				// a method of the same value type, selected on the receiver itself or on any
-				// other expression of that type (a fresh copy the iterator is bound to)
-				onSelf := false
-				if id, ok := sel.X.(*ast.Ident); ok && recv != nil && l.info.Uses[id] == recv {
-					onSelf = true
+			switch x := n.(type) {
+			case *ast.SelectorExpr:
+				if m := isOwnMethod(x); m != nil && !iterMethods[x.Sel.Name] {
+					iterMethods[x.Sel.Name] = true
+					visit(m, helperDepth)
 				}
-				sameType := false
-				if sl, ok := l.info.Selections[sel]; ok && sl.Kind() == types.MethodVal && recv != nil {
-					if a, b := recvNamed(sl.Recv()), recvNamed(recv.Type()); a != nil && a == b {
-						sameType = true
-					}
+			case *ast.CallExpr:
+				// a plain in-package helper that builds / returns the iterator
+				if helperDepth >= 2 {
+					return true
 				}
-				if onSelf || sameType {
-					if m := im.methods[sel.Sel.Name]; m != nil && !iterMethods[sel.Sel.Name] {
-						iterMethods[sel.Sel.Name] = true
-						visit(m)
+				if fn := CalleeOf(l.info, x); fn != nil && !seenHelper[fn] {
+					if sig, _ := fn.Type().(*types.Signature); sig != nil && sig.Recv() == nil {
+						if hd := l.decls[fn]; hd != nil && l.ctorOf(fn) == nil {
+							seenHelper[fn] = true
+							visit(hd, helperDepth+1)
+						}
 					}
 				}
 			}
 			return true
 		})
 	}
-	visit(root)
+	iterMethods[root.Name.Name] = true // a cursor advanced by a closure that IntoIter itself builds
+	visit(root, 0)
 	writes := func(fd *ast.FuncDecl) map[string]bool {
 		w := map[string]bool{}
 		recv := mbRecvObj(l.info, fd)
@@ -283,7 +417,8 @@ func (l *mbLib) iterStateFields(im *mbImpl) map[string]bool {
 }
 
 // fieldsRead: receiver fields read by a method, following calls of other
-// methods of the receiver (depth 3).
+// methods of the receiver and of library functions the receiver (or a local
+// copy of it) is passed to (depth 3).
 func (l *mbLib) fieldsRead(im *mbImpl, fd *ast.FuncDecl, depth int, seen map[string]bool) map[string]bool {
 	out := map[string]bool{}
 	if fd == nil || depth > 3 {
@@ -293,26 +428,78 @@ func (l *mbLib) fieldsRead(im *mbImpl, fd *ast.FuncDecl, depth int, seen map[str
 	if recv == nil {
 		return out
 	}
-	ast.Inspect(fd.Body, func(n ast.Node) bool {
-		sel, ok := n.(*ast.SelectorExpr)
-		if !ok {
+	l.fieldsReadVia(im, fd.Body, map[types.Object]bool{recv: true}, depth, seen, map[*ast.FuncDecl]bool{fd: true}, out)
+	return out
+}
+
+// fieldsReadVia: fields of the value read in body through any of the objects
+// in `selves` (the receiver, local copies of it, parameters it was passed as).
+func (l *mbLib) fieldsReadVia(im *mbImpl, body ast.Node, selves map[types.Object]bool, depth int, seen map[string]bool, seenFn map[*ast.FuncDecl]bool, out map[string]bool) {
+	if body == nil || depth > 3 {
+		return
+	}
+	isSelf := func(e ast.Expr) bool {
+		id, ok := mbStripDeref(e).(*ast.Ident)
+		return ok && selves[l.info.Uses[id]]
+	}
+	// local copies: v := self
+	for round := 0; round < 2; round++ {
+		ast.Inspect(body, func(n ast.Node) bool {
+			as, ok := n.(*ast.AssignStmt)
+			if !ok || len(as.Lhs) != len(as.Rhs) {
+				return true
+			}
+			for i, r := range as.Rhs {
+				if isSelf(r) {
+					if lid, ok := as.Lhs[i].(*ast.Ident); ok {
+						if o := l.info.Defs[lid]; o != nil {
+							selves[o] = true
+						}
+					}
+				}
+			}
 			return true
-		}
-		id, ok := sel.X.(*ast.Ident)
-		if !ok || l.info.Uses[id] != recv {
-			return true
-		}
-		if s, ok := l.info.Selections[sel]; ok && s.Kind() == types.FieldVal {
-			out[sel.Sel.Name] = true
-		} else if m := im.methods[sel.Sel.Name]; m != nil && !seen[sel.Sel.Name] {
-			seen[sel.Sel.Name] = true
-			for f := range l.fieldsRead(im, m, depth+1, seen) {
-				out[f] = true
+		})
+	}
+	ast.Inspect(body, func(n ast.Node) bool {
+		switch x := n.(type) {
+		case *ast.SelectorExpr:
+			if !isSelf(x.X) {
+				return true
+			}
+			if s, ok := l.info.Selections[x]; ok && s.Kind() == types.FieldVal {
+				out[x.Sel.Name] = true
+			} else if m := im.methods[x.Sel.Name]; m != nil && !seen[x.Sel.Name] {
+				seen[x.Sel.Name] = true
+				for f := range l.fieldsRead(im, m, depth+1, seen) {
+					out[f] = true
+				}
+			}
+		case *ast.CallExpr:
+			// the value handed to a function of the library
+			fn := CalleeOf(l.info, x)
+			hd := l.decls[fn]
+			if hd == nil || hd.Body == nil || hd.Recv != nil || seenFn[hd] {
+				return true
+			}
+			ps := mbParamObjs(l.info, hd)
+			sub := map[types.Object]bool{}
+			for i, a := range x.Args {
+				if i < len(ps) && ps[i] != nil && isSelf(a) {
+					// only when the parameter keeps the struct type (not the interface:
+					// a function taking a Value treats it as any value)
+					if l.implOfType(ps[i].Type()) == im {
+						sub[ps[i]] = true
+					}
+				}
+			}
+			if len(sub) > 0 {
+				seenFn[hd] = true
+				l.fieldsReadVia(im, hd.Body, sub, depth+1, seen, seenFn, out)
 			}
 		}
 		return true
 	})
-	return out
 }
 
 func ruleValueFields(c *Ctx) []Obligation {
@@ -435,212 +622,10 @@ func ruleCloneFresh(c *Ctx) []Obligation {
 				obs = append(obs, Obligation{Key: key, Pos: c.Pos(fd.Pos()), Status: Discharged, Detail: d})
 				continue
 			}
-			// may-taint, flow-insensitive fixpoint over the method body
-			tainted := map[types.Object]string{} // local -> witness
-			var taintOf func(e ast.Expr) string
-			taintOf = func(e ast.Expr) string {
-				if e == nil {
-					return ""
-				}
-				// a value without references cannot share state
-				if t := info.TypeOf(e); t != nil {
-					if !mbHasRefs(t, 0) {
-						return ""
-					}
-				}
-				switch x := e.(type) {
-				case *ast.ParenExpr:
-					return taintOf(x.X)
-				case *ast.Ident:
-					if w, ok := tainted[info.Uses[x]]; ok {
-						return w
-					}
-					return ""
-				case *ast.SelectorExpr:
-					if id, ok := ast.Unparen(x.X).(*ast.Ident); ok && recv != nil && info.Uses[id] == recv {
-						if s, ok := info.Selections[x]; ok && s.Kind() == types.FieldVal {
-							return "self." + x.Sel.Name
-						}
-					}
-					return taintOf(x.X)
-				case *ast.StarExpr:
-					if w := taintOf(x.X); w != "" {
-						return "*" + w
-					}
-					return ""
-				case *ast.UnaryExpr:
-					if w := taintOf(x.X); w != "" {
-						return x.Op.String() + w
-					}
-					return ""
-				case *ast.TypeAssertExpr:
-					return taintOf(x.X)
-				case *ast.IndexExpr:
-					return taintOf(x.X)
-				case *ast.SliceExpr:
-					return taintOf(x.X)
-				case *ast.CompositeLit:
-					for _, el := range x.Elts {
-						v := el
-						if kv, ok := el.(*ast.KeyValueExpr); ok {
-							v = kv.Value
-						}
-						if w := taintOf(v); w != "" {
-							return w
-						}
-					}
-					return ""
-				case *ast.CallExpr:
-					// conversions are transparent
-					if tv, ok := info.Types[x.Fun]; ok && tv.IsType() && len(x.Args) == 1 {
-						return taintOf(x.Args[0])
-					}
-					if sel, ok := x.Fun.(*ast.SelectorExpr); ok && sel.Sel.Name == "Clone" && len(x.Args) == 0 {
-						// a Clone() of a value of the library: fresh by induction
-						rt := info.TypeOf(sel.X)
-						if l.isValueIface(rt) || l.implOfType(rt) != nil {
-							return ""
-						}
-					}
-					if id, ok := x.Fun.(*ast.Ident); ok {
-						if b, ok := info.Uses[id].(*types.Builtin); ok {
-							switch b.Name() {
-							case "make", "new", "len", "cap":
-								return ""
-							}
-						}
-					}
-					for _, a := range x.Args {
-						if w := taintOf(a); w != "" {
-							return w + " → " + exprStr(x.Fun) + "(…)"
-						}
-					}
-					if sel, ok := x.Fun.(*ast.SelectorExpr); ok {
-						// method on a tainted receiver returning something with references
-						if w := taintOf(sel.X); w != "" {
-							return w + "." + sel.Sel.Name + "()"
-						}
-					}
-					return ""
-				}
-				return ""
-			}
-			setTaint := func(o types.Object, w string) bool {
-				if o == nil || w == "" {
-					return false
-				}
-				if _, ok := tainted[o]; ok {
-					return false
-				}
-				tainted[o] = w
-				return true
-			}
-			rootObj := func(e ast.Expr) types.Object {
-				for {
-					switch x := e.(type) {
-					case *ast.ParenExpr:
-						e = x.X
-					case *ast.StarExpr:
-						e = x.X
-					case *ast.IndexExpr:
-						e = x.X
-					case *ast.SelectorExpr:
-						e = x.X
-					case *ast.Ident:
-						if o := info.Defs[x]; o != nil {
-							return o
-						}
-						return info.Uses[x]
-					default:
-						return nil
-					}
-				}
-			}
-			for changed := true; changed; {
-				changed = false
-				mbInspectNoLit(fd.Body, func(nd ast.Node) bool {
-					switch x := nd.(type) {
-					case *ast.AssignStmt:
-						if len(x.Lhs) == len(x.Rhs) {
-							for i := range x.Lhs {
-								if w := taintOf(x.Rhs[i]); w != "" {
-									if setTaint(rootObj(x.Lhs[i]), w) {
-										changed = true
-									}
-								}
-							}
-						} else if len(x.Rhs) == 1 {
-							if w := taintOf(x.Rhs[0]); w != "" {
-								for _, lhs := range x.Lhs {
-									if setTaint(rootObj(lhs), w) {
-										changed = true
-									}
-								}
-							}
-						}
-					case *ast.RangeStmt:
-						if w := taintOf(x.X); w != "" {
-							if x.Value != nil {
-								if t := info.TypeOf(x.Value); t != nil && mbHasRefs(t, 0) {
-									if setTaint(rootObj(x.Value), "elem("+w+")") {
-										changed = true
-									}
-								}
-							}
-							if x.Key != nil {
-								if t := info.TypeOf(x.Key); t != nil && mbHasRefs(t, 0) {
-									if setTaint(rootObj(x.Key), "key("+w+")") {
-										changed = true
-									}
-								}
-							}
-						}
-					case *ast.ExprStmt:
-						// copy(dst, src)
-						if call, ok := x.X.(*ast.CallExpr); ok && len(call.Args) == 2 {
-							if id, ok := call.Fun.(*ast.Ident); ok {
-								if b, ok := info.Uses[id].(*types.Builtin); ok && b.Name() == "copy" {
-									if w := taintOf(call.Args[1]); w != "" {
-										if setTaint(rootObj(call.Args[0]), w+" → copy") {
-											changed = true
-										}
-									}
-								}
-							}
-						}
-					case *ast.DeclStmt:
-						if gd, ok := x.Decl.(*ast.GenDecl); ok {
-							for _, sp := range gd.Specs {
-								if vs, ok := sp.(*ast.ValueSpec); ok {
-									for i, nm := range vs.Names {
-										if i < len(vs.Values) {
-											if w := taintOf(vs.Values[i]); w != "" {
-												if setTaint(info.Defs[nm], w) {
-													changed = true
-												}
-											}
-										}
-									}
-								}
-							}
-						}
-					}
-					return true
-				})
-			}
-			var leaks []string
-			nret := 0
-			mbInspectNoLit(fd.Body, func(nd ast.Node) bool {
-				if r, ok := nd.(*ast.ReturnStmt); ok {
-					nret++
-					for _, res := range r.Results {
-						if w := taintOf(res); w != "" {
-							leaks = append(leaks, fmt.Sprintf("%s: returns %s, which carries %s unchanged", c.Pos(r.Pos()), exprStr(res), w))
-						}
-					}
-				}
-				return true
-			})
+			// may-taint, flow-insensitive fixpoint over the method body; helpers of
+			// the library are summarised (which parameters reach the result)
+			ta := &mbTaintAn{l: l, c: c, cache: map[types.Object]*mbTaintSum{}}
+			leaks, nret, _ := ta.flows(fd, map[types.Object]string{}, recv, 0)
 			sort.Strings(leaks)
 			switch {
 			case nret == 0:
@@ -658,4 +643,353 @@ func ruleCloneFresh(c *Ctx) []Obligation {
 		}
 	}
 	return obs
+}
+
+// ---------------------------------------------------------------------------
+// may-taint analysis used by R-clone-fresh
+// ---------------------------------------------------------------------------
+
+// mbTaintSum: what a library function does with one tainted parameter (or its
+// receiver): the taint reaches a result, and/or is written into the object
+// another parameter refers to.
+type mbTaintSum struct {
+	toResult bool
+	toParams []int // indices of parameters (−1 = receiver) that become tainted
+}
+
+type mbTaintAn struct {
+	l     *mbLib
+	c     *Ctx
+	cache map[types.Object]*mbTaintSum
+}
+
+func mbParamObjs(info *types.Info, fd *ast.FuncDecl) []types.Object {
+	var out []types.Object
+	for _, f := range fd.Type.Params.List {
+		for _, nm := range f.Names {
+			out = append(out, info.Defs[nm])
+		}
+		if len(f.Names) == 0 {
+			out = append(out, nil)
+		}
+	}
+	return out
+}
+
+// summary of fd for a taint entering through parameter object o.
+func (ta *mbTaintAn) summary(fd *ast.FuncDecl, o types.Object, depth int) *mbTaintSum {
+	if s, ok := ta.cache[o]; ok {
+		if s == nil {
+			return &mbTaintSum{toResult: true} // recursion: conservative
+		}
+		return s
+	}
+	ta.cache[o] = nil
+	leaks, _, tainted := ta.flows(fd, map[types.Object]string{o: "arg"}, nil, depth)
+	sum := &mbTaintSum{toResult: len(leaks) > 0}
+	ps := mbParamObjs(ta.l.info, fd)
+	for i, p := range ps {
+		if p != nil && p != o {
+			if _, ok := tainted[p]; ok {
+				sum.toParams = append(sum.toParams, i)
+			}
+		}
+	}
+	if r := mbRecvObj(ta.l.info, fd); r != nil && r != o {
+		if _, ok := tainted[r]; ok {
+			sum.toParams = append(sum.toParams, -1)
+		}
+	}
+	ta.cache[o] = sum
+	return sum
+}
+
+// flows: which returned expressions of fd carry a reference that comes from a
+// seed (a tainted local/parameter) or — when selfRecv is set — from a field of
+// that receiver. Flow-insensitive fixpoint over the body.
+func (ta *mbTaintAn) flows(fd *ast.FuncDecl, seed map[types.Object]string, selfRecv types.Object, depth int) (leaks []string, nret int, tainted map[types.Object]string) {
+	l, c, info := ta.l, ta.c, ta.l.info
+	tainted = map[types.Object]string{}
+	for k, v := range seed {
+		tainted[k] = v
+	}
+	changed := false
+	setTaint := func(o types.Object, w string) bool {
+		if o == nil || w == "" {
+			return false
+		}
+		if _, ok := tainted[o]; ok {
+			return false
+		}
+		tainted[o] = w
+		return true
+	}
+	rootObj := func(e ast.Expr) types.Object {
+		for {
+			switch x := e.(type) {
+			case *ast.ParenExpr:
+				e = x.X
+			case *ast.StarExpr:
+				e = x.X
+			case *ast.IndexExpr:
+				e = x.X
+			case *ast.SliceExpr:
+				e = x.X
+			case *ast.SelectorExpr:
+				e = x.X
+			case *ast.Ident:
+				if o := info.Defs[x]; o != nil {
+					return o
+				}
+				return info.Uses[x]
+			default:
+				return nil
+			}
+		}
+	}
+	var taintOf func(e ast.Expr) string
+	taintOf = func(e ast.Expr) string {
+		if e == nil {
+			return ""
+		}
+		// a value without references cannot share state
+		if t := info.TypeOf(e); t != nil {
+			if !mbHasRefs(t, 0) {
+				return ""
+			}
+		}
+		switch x := e.(type) {
+		case *ast.ParenExpr:
+			return taintOf(x.X)
+		case *ast.Ident:
+			if w, ok := tainted[info.Uses[x]]; ok {
+				return w
+			}
+			return ""
+		case *ast.SelectorExpr:
+			if id, ok := ast.Unparen(x.X).(*ast.Ident); ok && selfRecv != nil && info.Uses[id] == selfRecv {
+				if s, ok := info.Selections[x]; ok && s.Kind() == types.FieldVal {
+					return "self." + x.Sel.Name
+				}
+			}
+			return taintOf(x.X)
+		case *ast.StarExpr:
+			if w := taintOf(x.X); w != "" {
+				return "*" + w
+			}
+			return ""
+		case *ast.UnaryExpr:
+			if w := taintOf(x.X); w != "" {
+				return x.Op.String() + w
+			}
+			return ""
+		case *ast.TypeAssertExpr:
+			return taintOf(x.X)
+		case *ast.IndexExpr:
+			return taintOf(x.X)
+		case *ast.SliceExpr:
+			return taintOf(x.X)
+		case *ast.CompositeLit:
+			for _, el := range x.Elts {
+				v := el
+				if kv, ok := el.(*ast.KeyValueExpr); ok {
+					v = kv.Value
+				}
+				if w := taintOf(v); w != "" {
+					return w
+				}
+			}
+			return ""
+		case *ast.CallExpr:
+			// conversions are transparent
+			if tv, ok := info.Types[x.Fun]; ok && tv.IsType() && len(x.Args) == 1 {
+				return taintOf(x.Args[0])
+			}
+			if sel, ok := x.Fun.(*ast.SelectorExpr); ok && sel.Sel.Name == "Clone" && len(x.Args) == 0 {
+				// a Clone() of a value of the library: fresh by induction
+				rt := info.TypeOf(sel.X)
+				if l.isValueIface(rt) || l.implOfType(rt) != nil {
+					return ""
+				}
+			}
+			if id, ok := x.Fun.(*ast.Ident); ok {
+				if b, ok := info.Uses[id].(*types.Builtin); ok {
+					switch b.Name() {
+					case "make", "new", "len", "cap":
+						return ""
+					}
+				}
+			}
+			// a function of the library with a body: by its summary (does the
+			// tainted operand reach the result; does it taint another operand)
+			if fn := CalleeOf(info, x); fn != nil && depth < 3 {
+				if hd := l.decls[fn]; hd != nil && hd.Body != nil {
+					ps := mbParamObjs(info, hd)
+					res := ""
+					note := func(w string, po types.Object) {
+						if w == "" || po == nil {
+							return
+						}
+						sum := ta.summary(hd, po, depth+1)
+						if sum.toResult && res == "" {
+							res = w + " → " + exprStr(x.Fun) + "(…)"
+						}
+						for _, pi := range sum.toParams {
+							var target ast.Expr
+							if pi == -1 {
+								if sel, ok := x.Fun.(*ast.SelectorExpr); ok {
+									target = sel.X
+								}
+							} else if pi < len(x.Args) {
+								target = x.Args[pi]
+							}
+							if target != nil && setTaint(rootObj(target), w+" → "+exprStr(x.Fun)+"(…)") {
+								changed = true
+							}
+						}
+					}
+					for i, a := range x.Args {
+						pi := i
+						if pi >= len(ps) {
+							pi = len(ps) - 1 // variadic tail
+						}
+						if pi >= 0 {
+							note(taintOf(a), ps[pi])
+						}
+					}
+					if sel, ok := x.Fun.(*ast.SelectorExpr); ok {
+						if s, ok := info.Selections[sel]; ok && s.Kind() == types.MethodVal {
+							w := taintOf(sel.X)
+							if w == "" && selfRecv != nil {
+								// self.helper(): the receiver's fields are visible to the helper
+								if id, ok := ast.Unparen(sel.X).(*ast.Ident); ok && info.Uses[id] == selfRecv {
+									w = "self"
+								}
+							}
+							note(w, mbRecvObj(info, hd))
+						}
+					}
+					return res
+				}
+			}
+			for _, a := range x.Args {
+				if w := taintOf(a); w != "" {
+					return w + " → " + exprStr(x.Fun) + "(…)"
+				}
+			}
+			if sel, ok := x.Fun.(*ast.SelectorExpr); ok {
+				// method on a tainted receiver returning something with references
+				if w := taintOf(sel.X); w != "" {
+					return w + "." + sel.Sel.Name + "()"
+				}
+			}
+			return ""
+		}
+		return ""
+	}
+	for first := true; first || changed; first = false {
+		changed = false
+		mbInspectNoLit(fd.Body, func(nd ast.Node) bool {
+			switch x := nd.(type) {
+			case *ast.AssignStmt:
+				if len(x.Lhs) == len(x.Rhs) {
+					for i := range x.Lhs {
+						if w := taintOf(x.Rhs[i]); w != "" {
+							if setTaint(rootObj(x.Lhs[i]), w) {
+								changed = true
+							}
+						}
+					}
+				} else if len(x.Rhs) == 1 {
+					if w := taintOf(x.Rhs[0]); w != "" {
+						for _, lhs := range x.Lhs {
+							if setTaint(rootObj(lhs), w) {
+								changed = true
+							}
+						}
+					}
+				}
+			case *ast.RangeStmt:
+				if w := taintOf(x.X); w != "" {
+					if x.Value != nil {
+						if t := info.TypeOf(x.Value); t != nil && mbHasRefs(t, 0) {
+							if setTaint(rootObj(x.Value), "elem("+w+")") {
+								changed = true
+							}
+						}
+					}
+					if x.Key != nil {
+						if t := info.TypeOf(x.Key); t != nil && mbHasRefs(t, 0) {
+							if setTaint(rootObj(x.Key), "key("+w+")") {
+								changed = true
+							}
+						}
+					}
+				}
+			case *ast.ExprStmt:
+				if call, ok := x.X.(*ast.CallExpr); ok {
+					// copy(dst, src)
+					if len(call.Args) == 2 {
+						if id, ok := call.Fun.(*ast.Ident); ok {
+							if b, ok := info.Uses[id].(*types.Builtin); ok && b.Name() == "copy" {
+								if w := taintOf(call.Args[1]); w != "" {
+									if setTaint(rootObj(call.Args[0]), w+" → copy") {
+										changed = true
+									}
+								}
+								return true
+							}
+						}
+					}
+					// a helper called for its effect on its operands
+					_ = taintOf(call)
+				}
+			case *ast.DeclStmt:
+				if gd, ok := x.Decl.(*ast.GenDecl); ok {
+					for _, sp := range gd.Specs {
+						if vs, ok := sp.(*ast.ValueSpec); ok {
+							for i, nm := range vs.Names {
+								if i < len(vs.Values) {
+									if w := taintOf(vs.Values[i]); w != "" {
+										if setTaint(info.Defs[nm], w) {
+											changed = true
+										}
+									}
+								}
+							}
+						}
+					}
+				}
+			}
+			return true
+		})
+	}
+	// named results count as returned
+	var namedRes []types.Object
+	if fd.Type.Results != nil {
+		for _, f := range fd.Type.Results.List {
+			for _, nm := range f.Names {
+				namedRes = append(namedRes, info.Defs[nm])
+			}
+		}
+	}
+	mbInspectNoLit(fd.Body, func(nd ast.Node) bool {
+		if r, ok := nd.(*ast.ReturnStmt); ok {
+			nret++
+			for _, res := range r.Results {
+				if w := taintOf(res); w != "" {
+					leaks = append(leaks, fmt.Sprintf("%s: returns %s, which carries %s unchanged", c.Pos(r.Pos()), exprStr(res), w))
+				}
+			}
+			if len(r.Results) == 0 {
+				for _, o := range namedRes {
+					if w, ok := tainted[o]; ok {
+						leaks = append(leaks, fmt.Sprintf("%s: returns %s, which carries %s unchanged", c.Pos(r.Pos()), o.Name(), w))
+					}
+				}
+			}
+		}
+		return true
+	})
+	return leaks, nret, tainted
 }
